@@ -480,6 +480,11 @@ def _is_pure(e):
             f = x.func
             if x.keywords and any(k.arg is None for k in x.keywords):
                 return False
+            if isinstance(f, ast.Attribute) and f.attr in ("decode", "encode"):
+                # bytes.decode("utf-8") / str.encode() are pure; Codec.decode(stream) READS from the stream
+                if all(isinstance(a, ast.Constant) for a in x.args) and all(isinstance(k.value, ast.Constant) for k in x.keywords):
+                    continue
+                return False
             if isinstance(f, ast.Attribute) and f.attr in _PURE_METHODS:
                 continue
             if isinstance(f, ast.Name) and f.id in _PURE_BUILTINS:
@@ -1096,3 +1101,84 @@ def _replace_node(root, old, new):
                         v[i] = new
                         return True
     return False
+
+
+# ---- call forms: positional vs keyword arguments -------------------------------------------------------------------------------------
+_STDLIB_SIGS = {"wait_for": ["fut", "timeout"], "pbkdf2_hmac": ["hash_name", "password", "salt", "iterations", "dklen"], "sleep": ["delay", "result"],
+                "call_later": ["delay", "callback"]}
+
+
+def canonical_call_forms(repo):
+    """`f(a, b)` and `f(a, y=b)` are the same call.  The rules read arguments the way the reviewed tree wrote them, so every call to a
+    callee the reviewed tree called with ONE positional arity is put back into that form: leading keywords that name the next positional
+    parameters become positional, surplus positional arguments become keywords.  Needs an unambiguous signature (all functions /
+    classes of the package with that simple name agree on the parameter names involved, or a known stdlib signature)."""
+    from . import alpha
+    callpos = alpha.baseline().get("__callpos__") or {}
+    if not callpos:
+        return 0
+    sigs = {}
+    for q, fi in repo.funcs.items():
+        a = fi.node.args
+        ps = [x.arg for x in a.posonlyargs + a.args]
+        is_method = fi.owner_cls is not None and fi.parent is None and not any(isinstance(d, ast.Name) and d.id == "staticmethod" for d in fi.node.decorator_list)
+        if is_method:
+            ps = ps[1:]
+        name = fi.owner_cls.name if (fi.name == "__init__" and fi.owner_cls is not None) else fi.name
+        sigs.setdefault(name, []).append((ps, bool(a.vararg)))
+    # dataclass-like classes without __init__: field order of annotated class attributes
+    for cname, cis in repo.classes_by_name.items():
+        if cname in sigs:
+            continue
+        for ci in cis:
+            fields = [st.target.id for st in ci.node.body if isinstance(st, ast.AnnAssign) and isinstance(st.target, ast.Name)]
+            if fields and any("dataclass" in ast.unparse(d) for d in ci.node.decorator_list):
+                sigs.setdefault(cname, []).append((fields, False))
+    for k, v in _STDLIB_SIGS.items():
+        sigs.setdefault(k, []).append((v, False))
+    changed = 0
+    for q, fi in repo.funcs.items():
+        for n in ast.walk(fi.node):
+            if not isinstance(n, ast.Call) or any(isinstance(a, ast.Starred) for a in n.args) or any(k.arg is None for k in n.keywords):
+                continue
+            nm = n.func.id if isinstance(n.func, ast.Name) else (n.func.attr if isinstance(n.func, ast.Attribute) else None)
+            want = callpos.get(nm)
+            if not want or len(want) != 1 or nm not in sigs:
+                continue
+            P = want[0]
+            cands = sigs[nm]
+            if len(n.args) < P:
+                kws = {k.arg: k for k in n.keywords}
+                moved = False
+                while len(n.args) < P:
+                    i = len(n.args)
+                    names = {c[0][i] if i < len(c[0]) else None for c in cands}
+                    if len(names) != 1 or None in names or any(c[1] for c in cands):
+                        break
+                    pname = next(iter(names))
+                    if pname not in kws:
+                        break
+                    k = kws.pop(pname)
+                    n.keywords.remove(k)
+                    n.args.append(k.value)
+                    moved = True
+                changed += moved
+            elif len(n.args) > P:
+                names_ok = True
+                new_kw = []
+                for i in range(P, len(n.args)):
+                    names = {c[0][i] if i < len(c[0]) else None for c in cands}
+                    if len(names) != 1 or None in names or any(c[1] for c in cands):
+                        names_ok = False
+                        break
+                    new_kw.append(ast.keyword(arg=next(iter(names)), value=n.args[i]))
+                if names_ok and not ({k.arg for k in new_kw} & {k.arg for k in n.keywords}):
+                    del n.args[P:]
+                    n.keywords[0:0] = new_kw
+                    for k in new_kw:
+                        ast.copy_location(k, k.value)
+                    changed += 1
+    if changed:
+        for m in repo.modules.values():
+            ast.fix_missing_locations(m.tree)
+    return changed
